@@ -26,6 +26,28 @@ What is enumerated (DESIGN.md section 7, C17; sensitivity classes of section 6):
                strings), slotpart (fill one slot, the others stay unset), attr (__dict__ attribute), set, watch},
                post {slot (grow / rebind / fill an unset slot), attr, set, mut}; the snapshot lists every slot of
                the MRO (value or <unset>) next to the __dict__ attributes
+  ordinary attributes  class Attr(Plain): every attribute name that is not one of param's own bookkeeping names
+               (ATTR_NAMES: underscore-prefixed / private / name-mangled names, near-misses of `_param__private`,
+               `_param_watchers`, `_instance__params`, ..., the slot names of the private namespace and of the Parameters
+               accessor state, parameter names of other classes, odd but legal names) x value kinds (VALUE_KINDS:
+               immutable incl. all falsy ones; mutable containers, bytearray, plain object, Parameterized sub-object;
+               values referring back into the object: the object itself, the list that is a parameter's value, a bound
+               method, a Watcher handle), set after construction (`attr:<name>=<kind>`, all names at once under a
+               name->kind shift: `attrs:<shift>`) or before Parameterized.__init__ (`early:` / `earlys:`); post
+               alphabet {amut (grow every mutable attribute value in place), aset (rebind), adel (delete), set, mut};
+               copy mechanisms incl. pickle protocols 0 and 1.  A failure found with all names on one object is reduced
+               to the single (name, kind) that exposes it (re-run) before it is reported.
+  several parameters at once  class Multi(Plain): depends('p','q'), depends('p','q','r'), depends('p'), a
+               watch='queued' dependency; alphabets: pre {upd2 (param.update of two parameters), setp, setw, watchm /
+               watchfn2 (user watcher -- bound method / function -- on several parameters)}, post {upd2, upd3, updvp,
+               batch2 (batch_call_watchers), trig2 (trigger of two parameters), setp, seteach, same (re-assign the
+               current values: nothing may run), setw, watchm}
+  copies in the middle of a dispatch  `cls=Multi ctx=<context>`: the copy is taken inside batch_call_watchers
+               (nothing queued / events queued / nested), inside discard_events, inside a watcher callback (run by a
+               plain assignment, by an update of several parameters, of a queued dependency, by trigger, a user
+               watcher); oracle: the copy equals the original at the copy point; what the original still delivers
+               when the context ends reaches the original only; afterwards the copy behaves like the never-copied
+               object after the context -- the calls still pending at the copy point may or may not be made on it
   x copy mechanism {copy.deepcopy, pickle protocol 2, 3, 4, 5}
   x post-history applied afterwards, first to the copy and then to the original, over
                {set, mut, pedit, pmut, attach, subset, attr, const (assign the constant), watch}.
@@ -55,13 +77,32 @@ SLOT_CLASSES = tuple(K.SLOT_CLASSES)
 SLOT_PRE = tuple(K.SLOT_PRE_OPS)
 SLOT_POST = tuple(K.SLOT_POST_OPS)
 ALL_MECHS = K.MECHS
+MECHS7 = ("deepcopy", "pickle0", "pickle1", "pickle2", "pickle3", "pickle4", "pickle5")
+MECHS3 = ("deepcopy", "pickle2", "pickle5")
+MECHS2 = ("deepcopy", "pickle5")
+ATTR_POST = tuple(K.ATTR_POST_OPS)
+MULTI_PRE = tuple(K.MULTI_PRE_OPS)
+MULTI_POST = tuple(K.MULTI_POST_OPS)
+CTX_PRE = tuple(K.CTX_PRE_OPS)
+CTX_POST = tuple(K.CTX_POST_OPS)
+NK = len(K.VALUE_KINDS)
 
 
 def pre_alphabet(cname):
+    if cname == "Multi":
+        return MULTI_PRE
+    if cname.startswith("Multi@"):
+        return CTX_PRE
     return SLOT_PRE if cname in SLOT_CLASSES else PRE
 
 
 def post_alphabet(cname):
+    if cname == "Attr":
+        return ATTR_POST
+    if cname == "Multi":
+        return MULTI_POST
+    if cname.startswith("Multi@"):
+        return CTX_POST
     return SLOT_POST if cname in SLOT_CLASSES else POST
 
 
@@ -71,9 +112,14 @@ def histories(alphabet, maxlen):
             yield h
 
 
+def _norm(h):
+    # the value kind of an `attr:<name>=<kind>` operation is irrelevant for folding witnesses
+    return tuple(op.split("=")[0] if op.startswith(("attr:", "early:")) else op for op in h)
+
+
 def is_subseq(a, b):
-    it = iter(b)
-    return all(x in it for x in a)
+    it = iter(_norm(b))
+    return all(x in it for x in _norm(a))
 
 
 def mech_str(mechs):
@@ -139,8 +185,65 @@ def work(task):
                 if clause == "C17/copy/succeeds":
                     copy_failed.add(mech)
                 fails.append((cname, pre, post, mech, clause, dpath, side, detail))
+    if cname == "Attr" and fails:
+        fails = _shrink_attr_fails(fails)
     return {"task": (cname, pre), "cases": cases, "checked": checked, "fails": fails,
             "applicable": applicable, "clean": K.class_state_clean()}
+
+
+def _attr_name_in(dpath):
+    """the attribute name a difference path (`attrs.<name>...`, `obj.<name>...`) points at, if any"""
+    best = None
+    for pref in ("attrs.", "obj."):
+        if dpath.startswith(pref):
+            rest = dpath[len(pref):]
+            for n in K.ATTR_NAMES:
+                if (rest == n or rest.startswith((n + ".", n + "[", n + "("))) and (best is None or len(n) > len(best)):
+                    best = n
+    return best
+
+
+def _shrink_attr_fails(fails):
+    """A failure found with ALL attribute names on one object (`attrs:<shift>` / `earlys:<shift>`) is reduced to
+    the single (name, value kind) that exposes it, re-running the scenario to make sure it does."""
+    out = []
+    scanned = {}                                  # clause -> name found by scanning all names (once per task)
+    for f in fails:
+        cname, pre, post, mech, clause, dpath, side, detail = f
+        idx = [i for i, op in enumerate(pre) if op.startswith(("attrs:", "earlys:"))]
+        if len(idx) != 1:
+            out.append(f)
+            continue
+        i = idx[0]
+        base, shift = pre[i].split(":")
+        single = "attr" if base == "attrs" else "early"
+        n = _attr_name_in(dpath)
+        if n is not None:
+            cands = [n]
+        elif clause in scanned:
+            cands = [scanned[clause]] if scanned[clause] else []
+        else:
+            cands = list(K.ATTR_NAMES)
+        hit = None
+        for n in cands:
+            kind = K._kind_at(K.ATTR_NAMES.index(n), int(shift))
+            pre2 = pre[:i] + ("%s:%s=%s" % (single, n, kind),) + pre[i + 1:]
+            try:
+                res = K.run_scenario(cname, pre2, mech, post, "both")
+            except Exception:
+                res = None
+            for r in res or []:
+                if r[0] == clause and (r[2] == side):
+                    hit = (cname, pre2, post, mech, clause, r[1], side, r[3])
+                    break
+            if hit:
+                if len(cands) > 1:
+                    scanned[clause] = n
+                break
+        if hit is None and len(cands) > 1:
+            scanned[clause] = None
+        out.append(hit or f)
+    return out
 
 
 # ------------------------------------------------------------------------------------------------
@@ -179,6 +282,98 @@ def run(tier, seed):
             return _run(tier, seed)
     finally:
         logging.disable(prev)
+
+
+def plan_new_families(tier, seed):
+    """ordinary attributes (names x values), several parameters at once, copies in the middle of a dispatch"""
+    tasks = []
+    names = K.ATTR_NAMES
+    ctxs = ["Multi@" + c for c in K.CTXS]
+    if tier == "thorough":
+        # -- ordinary attributes: every (name, value kind) on its own + all names at once under every shift
+        for i, n in enumerate(names):
+            for kind in K.VALUE_KINDS:
+                tasks.append(("Attr", ("attr:%s=%s" % (n, kind),), 1, MECHS3))
+                tasks.append(("Attr", ("attr:%s=%s" % (n, kind),), 0, MECHS7))
+            for kind in ("int", "none", "list", "sub"):
+                tasks.append(("Attr", ("early:%s=%s" % (n, kind),), 1, MECHS3))
+        for k in range(NK):
+            tasks.append(("Attr", ("attrs:%d" % k,), 2, MECHS7))
+            tasks.append(("Attr", ("earlys:%d" % k,), 1, MECHS7))
+            for other in ("set", "watch", "pedit"):
+                tasks.append(("Attr", (other, "attrs:%d" % k), 1, MECHS3))
+                tasks.append(("Attr", ("attrs:%d" % k, other), 1, MECHS3))
+        # -- several parameters at once
+        for pre in histories(MULTI_PRE, 3):
+            if len(pre) <= 1:
+                tasks.append(("Multi", pre, 2, MECHS7))
+            else:
+                tasks.append(("Multi", pre, 2 if len(pre) == 2 else 1, MECHS2))
+        # -- copies in the middle of a dispatch
+        for c in ctxs:
+            for pre in histories(CTX_PRE, 2):
+                if len(pre) <= 1:
+                    tasks.append((c, pre, 2, MECHS7))
+                else:
+                    tasks.append((c, pre, 1, MECHS3))
+        bound = ("ordinary attributes: %d names x %d value kinds (immutable, mutable, referring back into the object) "
+                 "one at a time x {post-histories <= 1 over 5 operations x {deepcopy, pickle 2, 5}; copy-time clauses x "
+                 "{deepcopy, pickle 0-5}}, set after or (4 kinds) before Parameterized.__init__; all names at once "
+                 "under all %d name->kind shifts x post-histories <= 2 x {deepcopy, pickle 0-5}, also combined with "
+                 "set / watch / pedit; several parameters at once: class Multi x {pre-histories <= 1 x post-histories "
+                 "<= 2 x {deepcopy, pickle 0-5}; pre-histories 2 (3) x post-histories <= 2 (<= 1) x {deepcopy, "
+                 "pickle5}} over 5+10 operations; copies in the middle of a dispatch: %d contexts x {pre-histories "
+                 "<= 1 x post-histories <= 2 x {deepcopy, pickle 0-5}; pre-histories = 2 x post-histories <= 1 x "
+                 "{deepcopy, pickle 2, 5}} over 4+5 operations" % (len(names), NK, NK, len(K.CTXS)))
+        return tasks, False, bound
+    for k in range(NK):
+        # copy-time clauses (equal, no mutable object shared) for every shift; diverging histories for a quarter
+        tasks.append(("Attr", ("attrs:%d" % k,), 1 if k % 4 == seed % 4 else 0, MECHS3))
+        if k % 14 == seed % 14:
+            tasks.append(("Attr", ("attrs:%d" % k,), 0, MECHS7))
+        if k % 7 == seed % 7:
+            tasks.append(("Attr", ("earlys:%d" % k,), 0, MECHS2))
+    k = seed % NK
+    for i, other in enumerate(("set", "watch", "pedit")):
+        if i % 2 == seed % 2:
+            tasks.append(("Attr", (other, "attrs:%d" % k), 1, MECHS2))
+        else:
+            tasks.append(("Attr", ("attrs:%d" % ((k + 1) % NK), other), 1, MECHS2))
+    tasks.append(("Attr", ("attrs:%d" % ((k + 2) % NK),), 2, ("deepcopy",)))
+    j = 0
+    for i, n in enumerate(names):
+        for kind in K.VALUE_KINDS:
+            if j % 197 == seed % 197:
+                tasks.append(("Attr", ("attr:%s=%s" % (n, kind),), 1, MECHS2))
+            j += 1
+    for i, pre in enumerate(histories(MULTI_PRE, 2)):
+        if len(pre) == 0:
+            tasks.append(("Multi", pre, 2, MECHS2))
+            tasks.append(("Multi", pre, 1, MECHS3))
+        elif len(pre) == 1:
+            tasks.append(("Multi", pre, 1, MECHS3))
+        elif i % 3 == seed % 3:
+            tasks.append(("Multi", pre, 1, ("deepcopy",) if i % 2 else ("pickle5",)))
+    for ci, c in enumerate(ctxs):
+        for i, pre in enumerate(histories(CTX_PRE, 1)):
+            if len(pre) == 0:
+                tasks.append((c, pre, 1, MECHS3))
+            else:
+                tasks.append((c, pre, 1, ("deepcopy",) if (i + seed) % 2 else ("pickle5",)))
+        if ci % 3 == seed % 3:
+            tasks.append((c, (), 2, ("deepcopy",)))
+    bound = ("ordinary attributes: %d names x %d value kinds (immutable, mutable, referring back into the object), all "
+             "names on one object under each of the %d name->kind shifts (every (name, kind) pair is covered) x "
+             "{deepcopy, pickle 2, 5} with the copy-time clauses, a seed-chosen quarter of the shifts also x "
+             "post-histories <= 1 over 5 operations, seed-chosen shifts x pickle 0-5 / set before "
+             "Parameterized.__init__ / combined with set, watch, pedit / post-histories <= 2 / one (name, kind) at a "
+             "time; several parameters at once: class Multi x {no pre-history x post-histories <= 2 x {deepcopy, "
+             "pickle5}; pre-histories <= 1 x post-histories <= 1 x {deepcopy, pickle 2, 5}; a seed-chosen third of "
+             "the pre-histories = 2 x post-histories <= 1 x one mechanism} over 5+10 operations; copies in the middle "
+             "of a dispatch: %d contexts x {post-histories <= 1 x {deepcopy, pickle 2, 5}; pre-histories = 1 x "
+             "post-histories <= 1 x one mechanism; a seed-chosen third of the contexts x post-histories <= 2 x "
+             "deepcopy} over 4+5 operations" % (len(names), NK, NK, len(K.CTXS)))
+    return tasks, True, bound
 
 
 def plan(tier, seed):
@@ -225,6 +420,10 @@ def plan(tier, seed):
                  "pre-histories <= 1 x post-histories <= 2 x {deepcopy, pickle5}} over 9+9 operations (complete), plus "
                  "a seed-chosen sixteenth of the pre-histories of length 3 x post-histories <= 1 x {deepcopy, "
                  "pickle5}; each post-history applied to the copy and then to the original")
+    t2, s2, b2 = plan_new_families(tier, seed)
+    tasks += t2
+    sampled = sampled or s2
+    bound += "; " + b2
     # a task over post-histories <= 2 covers those <= 1: never run a (class, pre, mechanism, post) twice
     best = {}
     for cname, pre, maxpost, mechs in tasks:
@@ -246,7 +445,10 @@ def _run(tier, seed):
         "C17",
         rule=("model classes: Plain / Main (parameters, dependencies, sub-object) and four slotted classes (ordinary "
               "attributes in __slots__ declared by plain mixins before / after / deeper than the Parameterized base "
-              "and by the Parameterized subclass itself, next to __dict__ attributes); "
+              "and by the Parameterized subclass itself, next to __dict__ attributes); Attr (ordinary attributes: "
+              "names that look like param's bookkeeping but are not x value kinds); Multi (dependencies / watchers on "
+              "several parameters x updates of several parameters at once; copies taken in the middle of a dispatch: "
+              "inside a batch, inside discard_events, inside a watcher callback); "
               "one case = (model class, pre-history, copy mechanism, post-history); the post-history is applied to "
               "the copy and then to the original and both objects are compared after each phase with an object "
               "that was never copied (values, Parameter attributes, ordinary attributes, invocation logs, operation "
@@ -280,6 +482,7 @@ def _run(tier, seed):
 
     # ---- minimal witnesses: shortest failing (pre, post) of a class; longer ones are folded into it
     reported = []          # (clause, cname, dpath, side, pre, post, witness)
+    folded_attr = {}
     order = sorted(groups, key=lambda g: (g[0], g[1], len(g[4]) + len(g[5]), len(g[4]), g[4], g[5], g[2], g[3]))
     for g in order:
         clause, cname, dpath, side, pre, post = g
@@ -287,7 +490,10 @@ def _run(tier, seed):
         fam = lambda ms: (any(m == "deepcopy" for m in ms), any(m.startswith("pickle") for m in ms))
         host = None
         for (c2, n2, d2, s2, p2, q2, w2, m2) in reported:
-            if (c2, n2, d2, s2) == (clause, cname, dpath, side) and is_subseq(p2, pre) and is_subseq(q2, post) \
+            # (copies taken in the middle of a dispatch: one witness per context, clause and kind of difference --
+            # the shortest history; a context that leaves the copy's dispatch stuck fails under every later set)
+            if (c2, n2, d2, s2) == (clause, cname, dpath, side) and is_subseq(p2, pre) \
+                    and (is_subseq(q2, post) or "@" in cname) \
                     and all(a or not b for a, b in zip(fam(m2), fam(mechs))):
                 host = w2
                 break
@@ -295,17 +501,30 @@ def _run(tier, seed):
             for _ in mechs:
                 B.violation(clause, host)
             continue
+        if cname == "Attr":
+            # cap: one defect of the attribute handling shows up under many names; at most 8 witnesses per clause
+            mine = [r for r in reported if (r[0], r[1]) == (clause, cname)]
+            if len(mine) >= 8:
+                for _ in mechs:
+                    B.violation(clause, mine[0][6])
+                folded_attr[clause] = folded_attr.get(clause, 0) + 1
+                continue
+        cls_, _, ctx = cname.partition("@")
+        cls_s = cls_ + (" ctx=" + ctx if ctx else "")
         if clause == "C17/copy/succeeds":
-            witness = "cls=%s pre=%s mech=%s kind=%s" % (cname, hist_str(pre), mech_str(mechs), dpath)
+            witness = "cls=%s pre=%s mech=%s kind=%s" % (cls_s, hist_str(pre), mech_str(mechs), dpath)
         else:
             witness = "cls=%s pre=%s post=%s driving=%s mech=%s diff=%s" % (
-                cname, hist_str(pre), hist_str(post), side, mech_str(mechs), dpath)
+                cls_s, hist_str(pre), hist_str(post), side, mech_str(mechs), dpath)
         first = sorted(mechs)[0]
         B.violation(clause, witness, mechs[first], make_replay(clause, witness, cname, pre, first, post, dpath))
         for _ in list(mechs)[1:]:
             B.violation(clause, witness)
         reported.append((clause, cname, dpath, side, pre, post, witness, set(mechs)))
 
+    for cl, n in sorted(folded_attr.items()):
+        B.note("%s: %d further failing (attribute name, history) classes of the ordinary-attribute family folded "
+               "into the first witness (cap 8 per clause)" % (cl, n))
     if unclean:
         B.note("%d tasks left the model classes' own Parameters changed (per-instance state leaked into the class); "
                "the differential oracle stays self-consistent but see C12" % unclean)
